@@ -96,6 +96,10 @@ func c08Enumerate(r *mc.Report, n int, lifes [][]string, shard, nshards int) {
 							cfgRun(r, cfgCase{N: n, Mask: mask, Life: life, Target: t, Shape: "in", Missing: missing, OptMask: opt, Kind: kinds}, c08Oracle)
 							if form == "plain" && opt == 0 {
 								cfgRun(r, cfgCase{N: n, Mask: mask, Life: life, Target: t, Shape: "positional", Missing: missing, Kind: kinds}, c08Oracle)
+								if mask != 0 && kind0 == "" {
+									// every dependency declared twice (two parameters of the same identity)
+									cfgRun(r, cfgCase{N: n, Mask: mask, Life: life, Target: t, Shape: "positional", Missing: missing, Kind: kinds, DupMask: mask}, c08Oracle)
+								}
 							}
 						}
 					}
@@ -108,7 +112,7 @@ func c08Enumerate(r *mc.Report, n int, lifes [][]string, shard, nshards int) {
 func init() {
 	mc.Register(&mc.Check{
 		Prop:        "C08",
-		Rule:        "all dependency DAGs on <=3 services (4 in thorough; quick covers 4 services with uniform lifetimes) x every subset of the non-root services left unregistered x all lifetime assignments x dependency form {plain, keyed, group} x optional-ness {no edge, every edge, exactly the edges into unregistered services} x dependent form {constructor with In struct, positional constructor, void initializer, error-only initializer}; oracle: Build must succeed iff the model finds no lifetime conflict and no missing required dependency; after a successful Build every registered identity is resolved from a scope, its child and again and no resolution / scope creation may fail with 'service not found' (or fail at all when the model says valid). plus two-output (multiple-return / result-object) dependents x lifetimes x dependency registered or not x Remove of the first / second / both outputs x re-adding the first type. distinct = (size, edge forms, verdict, model verdict) classes.",
+		Rule:        "all dependency DAGs on <=3 services (4 in thorough; quick covers 4 services with uniform lifetimes) x every subset of the non-root services left unregistered x all lifetime assignments x dependency form {plain, keyed, group} x optional-ness {no edge, every edge, exactly the edges into unregistered services} x dependent form {constructor with In struct, positional constructor (also with every dependency declared twice), void initializer, error-only initializer}; oracle: Build must succeed iff the model finds no lifetime conflict and no missing required dependency; after a successful Build every registered identity is resolved from a scope, its child and again and no resolution / scope creation may fail with 'service not found' (or fail at all when the model says valid). plus two-output (multiple-return / result-object) dependents x lifetimes x dependency registered or not x Remove of the first / second / both outputs x re-adding the first type. distinct = (size, edge forms, verdict, model verdict) classes.",
 		Assume:      []string{"built-in injectables are context.Context, Scope and Provider without a key"},
 		MinOutcomes: 6,
 		Jobs: func(tier string) []mc.Job {
